@@ -249,7 +249,7 @@ class IMAPClientProxy:
                 # sends "POP3" as the first framed message for POP3
                 # clients.
                 #
-                if first_message and msg == b"POP3":
+                if first_message and msg == b"POP3" and m.group(2):
                     from .pop3_client import POP3ClientProxy
 
                     pop3 = POP3ClientProxy(
